@@ -51,7 +51,7 @@ CHECKS = {
         'outcome of the model; only ImageFormatError may be raised; format '
         'is sampled after every read for the no-revision clause.',
         'Trusts vcheck.sigmodel (written from the format documents); '
-        'marginal content and the text-descriptor VMDK class admit either '
+        'marginal content and the text-descriptor VMDK class (text carrying a createType=" line) admit either '
         'answer.',
         'DESIGN.md section 4 C03'),
     'C04': (
